@@ -188,6 +188,27 @@ def _ordinal(fn, node):
     return k
 
 
+def _is_nothing_consumed_flag(fn, g, ref):
+    """A bool local that starts true and is only ever set to false, each time after a
+    byte has successfully been read (a `!= EOF` fact holds there)."""
+    did = ref.get("d")
+    init_true = False
+    for v in fn.walk():
+        if v.get("k") == "VarDecl" and v.get("d") == did:
+            init_true = bool(v.get("c")) and folded(v["c"][0]) == 1
+    if not init_true:
+        return False
+    for n in fn.walk():
+        if n.get("k") in ("BinaryOperator", "CompoundAssignOperator") and n.get("op") in flow.ASSIGN_OPS and \
+                strip_all(n["c"][0]).get("d") == did:
+            if not (n.get("op") == "=" and folded(n["c"][1]) == 0):
+                return False
+            cs = g.cmps(n) or []
+            if not any(rel == "!=" and folded(rr) == -1 for l, rel, rr in cs):
+                return False
+    return True
+
+
 def _clean_end_justified(fn, g, ret):
     fs = g.at(ret)
     if fs is None:
@@ -196,7 +217,7 @@ def _clean_end_justified(fn, g, ret):
         # `empty` still true: not a single byte was consumed
         if k[0] == "T" and k[2] is True:
             n = strip_all(g.rep[k][1])
-            if n.get("k") == "DeclRefExpr" and n.get("n") == "empty":
+            if n.get("k") == "DeclRefExpr" and _is_nothing_consumed_flag(fn, g, n):
                 return "nothing consumed"
             if n.get("k") == "CallExpr" and _callee(n) == "expect_char":
                 return "end marker recognised"
